@@ -55,6 +55,10 @@ def lists_rational(rng, quick):
     # needs unimodular elimination steps), also next to an unrelated base and with signs
     fixed += [[4, 8, 32], [8, 32, 4], [32, 4, 8], [9, 27, 243], [4, 32, 8, 5], [F(4, 9), F(8, 27), F(32, 243)], [-2, F(-1, 4), F(-1, 4)],
               [16, 64, F(1, 32)], [-4, -8, -32], [F(1, 4), F(1, 8), 32], [4, 8, 32, 2], [-1, -1, 2], [-2, F(1, 2), -3, F(1, 3)]]
+    # numerators and denominators built from primes far above any trial-division limit
+    P, Q = 1000000007, 370000000003
+    fixed += [[P * Q, P, Q], [F(1, P * Q), P, Q], [2 * P * Q, 2 * P, Q], [F(P, Q), F(Q, P)], [P * P * Q, P, P * Q], [F(P * Q, 3), F(P, 3), Q],
+              [P * Q, Q, 7]]
     TOWER = [2, 4, 8, 16, 32, F(1, 2), F(1, 4), F(1, 8), -2, -4, -8, 3, 9, F(1, 9)]
     towers = [{"d": 1, "bases": [rat(x) for x in c]} for c in itertools.product(TOWER, repeat=3)]
     rng.shuffle(towers)
